@@ -1,6 +1,7 @@
 from __future__ import annotations
 
 import logging
+import math
 from typing import TYPE_CHECKING, Tuple, Type, Union
 
 from indi.device import events, values
@@ -136,6 +137,13 @@ class Number(Element):
             name=self._definition.name,
             value=values.num_to_str(self.value, self._definition.format),
         )
+
+    def check_value(self, value):
+        # inf and nan have no INDI number syntax: once stored, every later
+        # definition or update of the vector would fail to serialise
+        if isinstance(value, float) and not math.isfinite(value):
+            raise ValueError("Number value has to be finite")
+        return value
 
     def set_value_from_message(self, msg):
         self.set_value(values.str_to_num(msg.value, self._definition.format))
